@@ -25,7 +25,7 @@ KINDS = {
     "C15": {"repl", "replerr", "group", "span"},
     "C16": {"nullable", "zerolen"},
     "C17": set(SEM) | {"compile_kind"},
-    "C18": set(SEM) | FAULTS | {"history", "repl", "replerr", "partition", "items"},
+    "C18": set(SEM) | FAULTS | {"history", "impure", "repl", "replerr", "partition", "items"},
     "C19": set(SEM) | {"repl", "weakspan", "weakend"},
     "C20": set(SEM) | {"pair", "pair_m"},
 }
@@ -129,7 +129,8 @@ def plan(prop, tier):
                 dict(G("anch", Leaves="<-LvAnch", Quants="<-QBasicLazy", MaxSize=3 if q else 4, FlagSets="<-FlagsMS",
                        Alpha="{97, 10}", MaxLen=3), **o),
                 dict(G("sem", MaxSize=3 if q else 4, MaxLen=3), **o),
-                T("rand", "general", 2000, 40000, unopt=True), T("case", "case", 1000, 20000, unopt=True)]
+                T("rand", "general", 2000, 40000, unopt=True), T("case", "case", 1000, 20000, unopt=True),
+                {"type": "facts", "tag": "facts", "profiles": [("general", 400, 6000), ("anchors", 300, 4000), ("case", 300, 4000)]}]
     if prop == "C09":
         return [{"type": "classes", "tag": "cls", "nrand": 300 if q else 3000, "full": 150 if q else 100000},
                 K("class", Toks='"class"', MaxToks=4 if q else 6)]
@@ -206,6 +207,8 @@ def run_check(prop, tier):
             for k in ("compared", "mismatches"):
                 for kk, vv in stats[k].items():
                     tot[k][kk] = tot[k].get(kk, 0) + vv
+            for kk, vv in stats.get("constructs", {}).items():
+                tot.setdefault("constructs", {})[kk] = tot.get("constructs", {}).get(kk, 0) + vv
             samples += stats["samples"][:2]
             for v in viols:
                 v["src"] = tag
@@ -242,6 +245,34 @@ def run_check(prop, tier):
             stage_info.append({"stage": st["tag"], "histories": stats["behaviours"], "depth": st["depth"], "consts": st["consts"],
                                "modes": ["sequential on shared objects", "4 threads sharing the Regex objects"],
                                "wall_s": info["wall_s"]})
+        elif st["type"] == "facts":
+            nev = ncmp = 0
+            for (prof, nq, nt) in st["profiles"]:
+                ftag = tag + "_" + prof
+                d, rs = orch.record(ftag, prof, seed, nq if tier == "quick" else nt, "facts", False)
+                lines = open(os.path.join(d, "facts.ndjson")).read().splitlines()
+                files = []
+                nsh = max(1, min(12, len(lines) // 25))
+                per = (len(lines) + nsh - 1) // nsh
+                for i in range(nsh):
+                    part = lines[i * per:(i + 1) * per]
+                    if part:
+                        f = os.path.join(d, "facts_shard%02d.ndjson" % i)
+                        open(f, "w").write("\n".join(part) + "\n")
+                        files.append(f)
+                tt, mm = orch.parallel_trace_specs(ftag, files, "FactsTrace.tla", "FactsTrace.cfg")
+                nev += tt["lines"]; ncmp += tt["compared"]
+                tot["states"] += tt["states"]; tot["transitions"] += tt["states"]
+                for (f, line, kind, info) in mm:
+                    ev = json.loads(open(f).read().splitlines()[line - 1])
+                    allviol.append({"kind": "facts", "pat_s": orch.cps_s(ev["pat"]), "flags": orch.cps_s(ev["flags"]),
+                                    "x": ev["xpath"], "s_s": orch.cps_s(info.get("input", [])) if isinstance(info, dict) else "",
+                                    "call": "compile-time fact", "expected": info, "observed": ev["facts"], "cut": 0, "src": ftag})
+            tot["trace_events"] = tot.get("trace_events", 0) + nev
+            tot["trace_compared"] = tot.get("trace_compared", 0) + ncmp
+            tot["trace_jobs"] = tot.get("trace_jobs", 0) + nev
+            stage_info.append({"stage": st["tag"], "facts_events": nev, "patterns_with_obligations_checked": ncmp,
+                               "inputs_per_pattern": "all strings up to length 3 over the pattern's alphabet + 'x' + LF"})
         elif st["type"] == "unicode":
             d, us, files = orch.sweep_unicode(tag)
             tt, mm = orch.parallel_trace_specs(tag, files, "UnicodeTrace.tla", "UnicodeTrace.cfg")
@@ -309,7 +340,8 @@ def run_check(prop, tier):
            "exhaustive": False, "exhaustive_part": "the gen stages (TLC enumeration inside the listed bounds)", "stages": stage_info, "cases": tot["cases"], "compared": tot["compared"],
            "mismatches_all_kinds": tot["mismatches"], "kinds_of_this_property": sorted(KINDS[prop]),
            "unspec_cases": tot["unspec_cases"], "indefinite_span_cases": tot["indefinite_cases"],
-           "skipped_after_fault_cap": tot["skipped_jobs"]}
+           "skipped_after_fault_cap": tot["skipped_jobs"],
+           "pattern_constructs_replayed": tot.get("constructs", {})}
     orch.write_evidence(prop, tier, seed, cov, time.time() - t0, nviol,
                         ["TLC/SANY and the CommunityModules Json/IOUtils", "the reading of XSD 1.1 / F&O 3.1 encoded in spec/",
                          "harness JSON conversion and comparison code", "bounds of each stage as listed"])
@@ -325,6 +357,8 @@ def main(argv):
             return setup()
         if argv[0] == "replay":
             return replay(argv[1])
+        if argv[0] == "selftest":
+            return selftest()
         prop = argv[0]
         tier = argv[1] if len(argv) > 1 else os.environ.get("VERIF_TIER", "quick")
         return run_check(prop, tier)
@@ -380,3 +414,68 @@ def replay(path):
             still += 1
     print("%d case(s) still behave as recorded" % still)
     return 1 if still else 0
+
+
+def selftest():
+    """Demonstrate that the binding binds (DESIGN 4.4): a corrupted trace field is reported at exactly that line,
+    a removed iterator step is reported at the next one, and no generator action / trace action is vacuous."""
+    import random, shutil, subprocess, re, glob
+    orch.build_harness()
+    ok = True
+    d, rs = orch.record("selftest_rec", "spans", 7, 150, "cases", False, workers=1)
+    f = sorted(glob.glob(os.path.join(d, "trace", "*.ndjson")))[0]
+    lines = open(f).read().splitlines()
+    base_tot, base_v = orch.validate_traces("selftest_base", d)
+    base_lines = {v["line"] for v in base_v}
+    print("selftest: baseline trace %d events, %d mismatches (all must carry a cut-off note: %s)" % (
+        len(lines), len(base_v), all(v["cut"] for v in base_v)))
+    ok &= all(v["cut"] for v in base_v)
+
+    def variant(name, new_lines):
+        vd = os.path.join(orch.WORK, "selftest_" + name)
+        shutil.rmtree(vd, ignore_errors=True)
+        os.makedirs(os.path.join(vd, "trace"))
+        open(os.path.join(vd, "trace", "t.ndjson"), "w").write("\n".join(new_lines) + "\n")
+        tot, v = orch.validate_traces("selftest_" + name, vd)
+        return v
+
+    ev = [json.loads(l) for l in lines]
+    # (a) flip one is_match result
+    cand = [i for i, e in enumerate(ev) if e["ev"] == "is_match" and e["res"].get("k") == "ok" and (i + 1) not in base_lines
+            and not e.get("cut")]
+    i = cand[len(cand) // 2]
+    e = json.loads(lines[i]); e["res"]["v"] = not e["res"]["v"]
+    v = variant("flip", lines[:i] + [json.dumps(e)] + lines[i + 1:])
+    hit = [x for x in v if x["line"] == i + 1 and x["kind"] == "m"]
+    print("selftest (a) flipped is_match at line %d -> reported: %s" % (i + 1, bool(hit)))
+    ok &= bool(hit) and len([x for x in v if x["line"] not in base_lines]) == 1
+    # (b) drop one tok_next "some" line of an iterator with at least two items
+    cand = [i for i, e in enumerate(ev) if e["ev"] == "tok_next" and e["res"].get("k") == "some"
+            and ev[i + 1]["ev"] == "tok_next" and ev[i + 1]["res"].get("k") == "some" and ev[i + 1]["res"]["v"] != e["res"]["v"]]
+    if cand:
+        i = cand[0]
+        v = variant("drop", lines[:i] + lines[i + 1:])
+        hit = [x for x in v if x["line"] == i + 1 and x["kind"] == "tok"]
+        print("selftest (b) dropped tok_next at line %d -> next line reported: %s" % (i + 1, bool(hit)))
+        ok &= bool(hit)
+    else:
+        print("selftest (b) skipped: no suitable iterator in the sample"); ok = False
+    # (c) shift a span: drop the first character of an analyze Match entry
+    cand = [i for i, e in enumerate(ev) if e["ev"] == "ana_next" and e["res"].get("k") == "some" and "n" in e["res"]["v"]
+            and len(e["res"]["v"]["n"]) >= 2]
+    if cand:
+        i = cand[0]
+        e = json.loads(lines[i]); e["res"]["v"]["n"] = e["res"]["v"]["n"][1:]
+        v = variant("shift", lines[:i] + [json.dumps(e)] + lines[i + 1:])
+        hit = [x for x in v if x["line"] == i + 1]
+        print("selftest (c) shortened a NonMatch at line %d -> reported: %s (%s)" % (i + 1, bool(hit), sorted({x["kind"] for x in hit})))
+        ok &= bool(hit)
+    # (d) vacuity: the small generator configuration produces every construct the builder has an action for
+    info, stats, viols = orch.tlc_gen_replay("selftest_gen", "MCGen.tla", dict(BASE, MaxSize=3), THEOREMS + ["Emit"])
+    need = ["group", "noncapturing", "alternation", "star", "plus", "optional", "counted", "lazy", "backref", "bol", "eol",
+            "negclass", "dot", "empty_pattern"]
+    missing = [c for c in need if stats["constructs"].get(c, 0) == 0]
+    print("selftest (d) constructs in %d replayed behaviours: %s ; never produced: %s" % (stats["behaviours"], stats["constructs"], missing))
+    ok &= not missing
+    print("selftest: %s" % ("PASS" if ok else "FAIL"))
+    return 0 if ok else 2
